@@ -2,9 +2,12 @@
    Statements only.
 
    The property as written is FALSE for the implementation (and for its faithful
-   model): see the four _refuted theorems.  What does hold is stated in
+   model): see the three _refuted theorems.  (A fourth defect, a truncated .pgc
+   making construction raise JSONDecodeError, is repaired; the model follows the
+   repaired create_load_table and C12_broken_cache_rebuilds states the new behaviour.)  What does hold is stated in
    C12_cache_transparent_partial (all histories of a stated class, all grammar
-   loaders, all table builders), C12_absent_or_older_rebuilds (the two clauses of the
+   loaders, all table builders), C12_absent_or_older_rebuilds,
+   C12_broken_cache_rebuilds / C12_unloadable_cache_rebuilds (the clauses of the
    property that hold unconditionally) and C12_roundtrip (persistence round trip for
    all grammars and tables).
 
@@ -55,11 +58,45 @@ Theorem C12_absent_or_older_rebuilds :
 Proof. exact construct_rebuilds. Qed.
 Print Assumptions C12_absent_or_older_rebuilds.
 
+(* A .pgc left by an interrupted write (a strict byte prefix of the document, the
+   empty file included), whatever its mtime and in EVERY state of the directory: the
+   construction behaves like the cache-free parser and the file is rewritten with the
+   serialisation of the new table.  No hypothesis on the history, loader or builder. *)
+Theorem C12_broken_cache_rebuilds :
+  forall (G FP : Type) grammar_of imported pg_of create_table
+         (fs : fsys) (now : N) (lr : bool) (fp : FP) (tc : N),
+    fs_cache fs = Some (tc, Broken) ->
+    snd (snd (construct G FP grammar_of imported pg_of create_table fs now lr fp))
+    = fresh G FP pg_of create_table lr (current G grammar_of fs) fp /\
+    (forall t, create_table (current G grammar_of fs) fp = Ok t ->
+               fs_cache (fst (construct G FP grammar_of imported pg_of create_table fs now lr fp))
+               = Some (now, Full (to_ser t))).
+Proof. exact construct_broken_rebuilds. Qed.
+Print Assumptions C12_broken_cache_rebuilds.
+
+(* More generally, any .pgc that load_table cannot turn into a table of the current
+   grammar (complete but foreign or stale documents that raise KeyError, IndexError or
+   AttributeError included) is treated as absent. *)
+Theorem C12_unloadable_cache_rebuilds :
+  forall (G FP : Type) grammar_of imported pg_of create_table
+         (fs : fsys) (now : N) (lr : bool) (fp : FP) (tc : N) (c : content) (e : pexn),
+    fs_cache fs = Some (tc, c) ->
+    load_cache G pg_of (current G grammar_of fs) c = Raise e ->
+    snd (snd (construct G FP grammar_of imported pg_of create_table fs now lr fp))
+    = fresh G FP pg_of create_table lr (current G grammar_of fs) fp /\
+    (forall t, create_table (current G grammar_of fs) fp = Ok t ->
+               fs_cache (fst (construct G FP grammar_of imported pg_of create_table fs now lr fp))
+               = Some (now, Full (to_ser t))).
+Proof. exact construct_unloadable_rebuilds. Qed.
+Print Assumptions C12_unloadable_cache_rebuilds.
+
 (* Transparency for ALL histories (any length, any interleaving of Parser /
    GLRParser constructions, pglr compile, edits and touches of root or imported
    grammar files, removals of the .pgc) in which
-     - every construction and compile uses one option fingerprint fp,
-     - no write of the .pgc is interrupted and nobody touches the .pgc,
+     - every completed construction and compile uses one option fingerprint fp
+       (writes of the .pgc may be interrupted at any point, by processes with any
+       options),
+     - nobody touches (changes the mtime of) the .pgc,
      - the clock strictly advances from step to step (mtimes are distinguishable),
    for EVERY grammar loader that reads only the files it reports in imported_files
    and EVERY table builder whose results are well-formed tables:
@@ -97,14 +134,6 @@ Theorem C12_options_refuted :
 Proof. exact options_refuted_full. Qed.
 Print Assumptions C12_options_refuted.
 
-(* a .pgc left by an interrupted write makes the next construction -- same options,
-   unchanged grammar -- raise JSONDecodeError instead of rebuilding *)
-Theorem C12_truncated_refuted :
-  exists (h : list (N * op bool)),
-    clocked 0 h /\ w_run h = [Raise EJSONDecode] /\ w_spec h = [Ok tbl_lr].
-Proof. exact (ex_intro _ h_crash truncated_refuted_w). Qed.
-Print Assumptions C12_truncated_refuted.
-
 (* validity is decided by mtime alone: touching the .pgc after an edit, or an edit
    within the mtime tick of the cache write, makes a stale table load (one
    fingerprint, complete files) *)
@@ -120,12 +149,13 @@ Theorem C12_same_tick_refuted :
 Proof. exact (ex_intro _ h_tick same_tick_refuted_w). Qed.
 Print Assumptions C12_same_tick_refuted.
 
-(* non-vacuity: a disciplined history (edit, touch, compile, four constructions)
-   exists, the cache is really loaded in it, and the round-trip hypothesis holds for a
+(* non-vacuity: a disciplined history (edit, touch, compile, an interrupted write by a
+   process with other options, five constructions) exists, the cache is really loaded
+   in it, and the round-trip hypothesis holds for a
    real table with conflicts *)
 Example C12_nonvacuous :
   disciplined bool false 0 h_good /\
-  v_run h_good = [Ok tbl_glr; Ok tbl_glr; Ok tbl_lr; Ok tbl_lr] /\
+  v_run h_good = [Ok tbl_glr; Ok tbl_glr; Ok tbl_lr; Ok tbl_lr; Ok tbl_lr] /\
   table_wfb gE tbl_glr = true /\ from_ser gE (to_ser tbl_glr) = Ok tbl_glr.
 Proof. exact nonvacuous_w. Qed.
 Print Assumptions C12_nonvacuous.
